@@ -106,3 +106,4 @@ impl<'a> Arena<'a> {
     #[verifier::external_body]
     pub fn intersperse<I: DocSeq, S: IntoDoc>(&'a self, docs: I, sep: S) -> (r: ArenaDoc<'a>) ensures r@ == intersperse_doc(docs.docs(), sep.docv()) { unimplemented!() }
 }
+impl<'b, 'a> DocSeq for alloc::vec::Drain<'b, ArenaDoc<'a>> { open spec fn docs(&self) -> Seq<DocV> { docs_v(drain_items(self)) } }
